@@ -364,6 +364,12 @@ pub fn run(tier: &str) -> i32 {
             corpus.push((format!("entries|{}", p.key), p.src));
         }
     }
+    // a spread of C01's declaration atoms (every resource kind, constants, overrides, entry and bind group shapes)
+    for (i, (key, src, _)) in crate::c18::corpus().into_iter().enumerate() {
+        if i % if thorough { 2 } else { 6 } == 0 {
+            corpus.push((format!("atom|{key}"), src));
+        }
+    }
     // sources whose embedded literal is sensitive to text normalisation (CRLF, CR, tabs, controls, non-ASCII,
     // long multi-byte runs across pipe-read boundaries)
     for (i, inp) in crate::c16::inputs(false).into_iter().enumerate() {
@@ -387,8 +393,33 @@ pub fn run(tier: &str) -> i32 {
                 match (norm_tokens(a), norm_tokens(b)) {
                     (Ok(x), Ok(y)) if x == y => {}
                     (Ok(x), Ok(y)) => {
-                        let pos = x.iter().zip(y.iter()).position(|(p, q)| p != q).unwrap_or(x.len().min(y.len()));
-                        rep.violation(key, format!("formatter on/off differ at token #{pos}: `{}` vs `{}`", x.get(pos).cloned().unwrap_or_default(), y.get(pos).cloned().unwrap_or_default()), json!({"wgsl": corpus[*i].1, "config": cfgs[*c].key()}));
+                        // Every difference is reported; an extra empty statement between the `if let Some(value) = self.<override>`
+                        // blocks of OverrideConstants::constants (consts.rs `#(#insert_optional_entries);*`) is reported under its
+                        // own signature and skipped, so that any other difference in the same text is still found.
+                        let (mut a, mut b, mut empties) = (0usize, 0usize, 0usize);
+                        let mut other = None;
+                        while a < x.len() || b < y.len() {
+                            if a < x.len() && b < y.len() && x[a] == y[b] {
+                                a += 1;
+                                b += 1;
+                                continue;
+                            }
+                            let ctx = ["if", "let", "Some", "(", "value", ")", "=", "self", "."];
+                            if b < y.len() && y[b] == ";" && b > 0 && y[b - 1] == "}" && y[b + 1..].iter().zip(ctx.iter()).filter(|(p, q)| p == q).count() == ctx.len() {
+                                b += 1;
+                                empties += 1;
+                                continue;
+                            }
+                            other = Some((a, b));
+                            break;
+                        }
+                        let detail = json!({"wgsl": corpus[*i].1, "config": cfgs[*c].key()});
+                        if empties > 0 {
+                            rep.violation(key.clone(), "formatter on keeps the empty statement `;` between the `if let Some(value) = self.<override>` blocks of OverrideConstants::constants, formatter off drops it".to_string(), detail.clone());
+                        }
+                        if let Some((a, b)) = other {
+                            rep.violation(key, format!("formatter on/off differ at token #{a}: `{}` vs `{}`", x.get(a).cloned().unwrap_or_default(), y.get(b).cloned().unwrap_or_default()), detail);
+                        }
                     }
                     _ => rep.violation(key, "output is not tokenisable Rust".to_string(), json!({"wgsl": corpus[*i].1, "config": cfgs[*c].key()})),
                 }
